@@ -1,18 +1,19 @@
 """C03 -- one time-ordered, loss-free replay of all streams (DESIGN §4 C03)."""
 import os
 import re
+import shutil
 import struct
 import subprocess
 
 from .. import tracefmt as tf
 from ..prng import Rng
-from ..framework import result, emu_verdict, ihash
+from ..framework import die_with_parent, result, emu_verdict, ihash
 from ..prv import Pvt, PrvError
 from ..world import BASE_CLOCK
 
 ID = "C03"
 LEVEL = "exploration"
-RUNS = {"quick": 4000, "thorough": 40000}
+RUNS = {"quick": 6000, "thorough": 40000}
 RULE = ("seeded clusters: 1-6 looms on 1-4 hosts with clock skews (up to 50 min with an offset table, < 1 h without), 1-3 processes per loom, "
         "1-4 threads each, stream lengths from 0 (dump tools) / 2 (emulator) to a few hundred events; a global discrete-event scheduler "
         "picks the next thread and advances time by delta >= 0, producing ties across streams on purpose (delta = 0 with probability 1/4, "
@@ -189,7 +190,8 @@ def gen(rng, tier, idx):
     rf = rng.derive("foreign")
     nforeign = rf.u64() if rf.chance(10) else 0
     return {"looms": looms, "skews": skews, "table": table_mode, "keep": keep, "mode": mode, "sched": sched, "orders": orders,
-            "tie": tie, "hostnames": hostnames, "foreign": nforeign, "tablefmt": tablefmt, "shapes": rc.chance(50), "huge": huge}
+            "tie": tie, "hostnames": hostnames, "foreign": nforeign, "tablefmt": tablefmt, "shapes": rc.chance(50), "huge": huge,
+            "linked": (rc.u64() if rc.chance(4) and not huge and idx % 500 != 321 else 0)}
 
 
 def build(case):
@@ -309,7 +311,7 @@ def corrected(case, threads, ti, g):
 def run_heap(case, ctx):
     exe = ctx.build.aux("heap_harness")
     p = subprocess.run([exe, str(case["seed"]), str(case["nops"]), str(case["maxsize"]), str(case["range"])],
-                       stdout=subprocess.PIPE, stderr=subprocess.PIPE, timeout=120)
+                       stdout=subprocess.PIPE, stderr=subprocess.PIPE, timeout=120, preexec_fn=die_with_parent)
     out = p.stdout.decode(errors="replace").strip()
     info = {"sim_ns": 0, "ihash": ihash(case), "nontrivial": True, "evals": 1,
             "probes": {"heap operations checked against a sorted multiset": case["nops"]},
@@ -345,6 +347,7 @@ def run(case, ctx):
     if nstreams > 1024:
         info["probes"]["more streams than the soft open-file limit (1024)"] = 1
     outs = []
+    xdevs = []
     for oi, order in enumerate(case["orders"]):
         order = [o for o in order if o < nstreams]
         d = ctx.workdir()
@@ -362,7 +365,30 @@ def run(case, ctx):
             foreign = tf.foreign_paths(Rng(case["foreign"]), streams) if case.get("foreign") else None
             if foreign:
                 info["probes"]["event-less stream of a non-thread part present"] = 1
-            tf.write_trace(tdir, streams, order=order, extra_files=extra, foreign=foreign)
+            links = None
+            if case.get("linked"):
+                # one loom (or process) directory lives elsewhere and is reached through a symbolic link inside the trace
+                # directory, as when per-node traces are gathered by linking; on another file system when there is one
+                rl = Rng(case["linked"])
+                s0 = rl.choice(streams)
+                parts = s0.relpath.split("/")
+                key = "/".join(parts[:rl.choice([1, 2])])
+                side = os.path.join(d, "elsewhere")
+                if rl.chance(60):
+                    xd = "/tmp/ovni-verif-xdev.%d.%d" % (os.getpid(), oi)
+                    try:
+                        os.makedirs(xd, exist_ok=True)
+                        if os.stat(xd).st_dev != os.stat(d).st_dev:
+                            side = xd
+                            xdevs.append(xd)
+                            info["probes"]["part of the trace behind a symlink to another file system"] = 1
+                        else:
+                            os.rmdir(xd)
+                    except OSError:
+                        pass
+                links = {key: side}
+                info["probes"]["part of the trace behind a symlink"] = 1
+            tf.write_trace(tdir, streams, order=order, extra_files=extra, foreign=foreign, links=links)
             observed = tf.observed_order(tdir)
             if case["mode"] == "dump":
                 r = check_dump(ctx, tdir, case, threads, streams, recs, info)
@@ -417,6 +443,9 @@ def run(case, ctx):
             outs.append((files, observed))
         finally:
             ctx.cleanup(d)
+            for xd in xdevs:
+                shutil.rmtree(xd, ignore_errors=True)
+            del xdevs[:]
     if case["mode"] == "emu" and len(outs) >= 2:
         base, obs0 = outs[0]
         for files, obs in outs[1:]:
